@@ -6,7 +6,7 @@ import tempfile
 
 from . import tlc as T
 
-_RE_J = re.compile(r'^<<"J", (\d+), "([^"]*)", \{([^}]*)\}, (TRUE|FALSE), (TRUE|FALSE)>>')
+_RE_J = re.compile(r'^<<"J", (\d+), "([^"]*)", \{([^}]*)\}, (TRUE|FALSE), (TRUE|FALSE), \{([^}]*)\}>>')
 
 
 def normalise(o, idx, haslog=True, chain=False):
@@ -47,7 +47,7 @@ def judge_ops(events, tag="judge", timeout=1800):
             raise T.MachineryError("unparsable judge line: " + line[:200])
         viol = set(x.strip().strip('"') for x in m.group(3).split(",") if x.strip())
         verdicts[m.group(2)] = {"violated": viol, "explained": m.group(4) == "TRUE", "chained": m.group(5) == "TRUE",
-                                "line": int(m.group(1))}
+                                "line": int(m.group(1)), "marks": sorted(x.strip().strip('"') for x in m.group(6).split(",") if x.strip())}
     if len(verdicts) != len(events):
         raise T.MachineryError("judge returned %d verdicts for %d events" % (len(verdicts), len(events)))
     os.remove(path)
